@@ -21,6 +21,7 @@ func onFile(f ssa.Value) func(ssa.Value) bool {
 }
 
 func runC07(ctx *core.Ctx) {
+	c07Round6(ctx)
 	ctx.Trusted = append(ctx.Trusted, "go/types, go/ssa", "C06 (mutual exclusion) and OS file semantics: effects confined to one exclusive critical section are serialised by the lock; what a failing WriteAt leaves on disk is not modelled")
 	p := ctx.P
 	ctx.Rule("A1", "all content I/O inside the critical section: Read, Write and Transform touch the file only through the locked File they opened; the path name is used for nothing but that open", 3)
